@@ -33,3 +33,24 @@ def member (A : ENFA σ) (w : List Nat) : Bool := A.acceptsE (w.map some)
 
 end ENFA
 end Pfl
+
+namespace Pfl
+namespace ENFA
+variable {σ : Type} [DecidableEq σ]
+
+/-- all words over `syms` of length exactly `n` -/
+def wordsOfLen (syms : List Nat) : Nat → List (List Nat)
+  | 0 => [[]]
+  | n+1 => (wordsOfLen syms n).flatMap fun w => syms.map fun a => w ++ [a]
+
+/-- the accepted words of length `≤ n`, each once (for duplicate-free `A.syms`) -/
+def langUpTo (A : ENFA σ) (n : Nat) : List (List Nat) :=
+  (List.range (n+1)).flatMap fun k => (wordsOfLen A.syms.eraseDups k).filter A.member
+
+/-- some state reachable from a start state lies on a cycle (of symbol- or ε-edges) -/
+def reachableCycle (A : ENFA σ) : Bool :=
+  A.reachable.any fun q => (A.outs q).any fun r =>
+    q ∈ (bfs A.outs (A.delta.length + 2) [r]).getD []
+
+end ENFA
+end Pfl
